@@ -10,7 +10,7 @@ line may be missing.  A record with an empty sequence has no sequence line at al
 This shares nothing with `Fasta.build` (which writes exactly two lines per record) nor with the
 parser; it only uses the record type.  Core Lean only (the driver renders the test inputs with it).
 -/
-namespace PolyVerif.Spec
+namespace PolyVerif.Spec.FastaSpec
 open PolyVerif PolyVerif.Fasta
 
 /-- a line the parser must ignore -/
@@ -99,4 +99,4 @@ def LinesFit (maxToken : Nat) (text : Str) : Prop := ∀ l ∈ rawLines text, l.
 
 instance (m : Nat) (t : Str) : Decidable (LinesFit m t) := by unfold LinesFit; infer_instance
 
-end PolyVerif.Spec
+end PolyVerif.Spec.FastaSpec
